@@ -14,7 +14,7 @@ import (
 func init() {
 	Register(&Property{
 		ID: "C19",
-		Explanation: "Decides structural necessary conditions of keep-last-good, never-partial reloads: (R19.1) namespaces parsed from files are published (set) only on the false branch of a non-emptiness test of an error list into which every error of schema.Parse / io.ReadAll of that function is appended, and when a changed file does not parse its previous content is restored; (R19.2) in the legacy watcher the entry of a file whose new content does not parse keeps its last parsed namespace (only its raw contents are updated); (R19.3) no namespace manager stores a one-shot stream (io.Reader without Seek/ReadAt) that is read again on a later event; (R19.4) lock discipline and no re-entrant locking in the managers and Config; (R19.5) every read method of a namespace manager answers under its lock; (R19.6) publishing replaces the visible set as a whole (a fresh map), never merges into the live one; (R19.7) for every kind of namespace configuration the value handed to ShouldReload has the dynamic type that the matching manager's ShouldReload compares against, so an unrelated configuration change does not tear down the manager (and with it the last good versions). " +
+		Explanation: "Decides structural necessary conditions of keep-last-good, never-partial reloads: (R19.1) namespaces parsed from files are published (set) only on the false branch of a non-emptiness test of an error list into which every error of schema.Parse / io.ReadAll of that function is appended, and when a changed file does not parse its previous content is restored or its new entry removed, on every path of the failed branch; (R19.2) in the legacy watcher the entry of a file whose new content does not parse keeps its last parsed namespace (only its raw contents are updated); (R19.3) no namespace manager stores a one-shot stream (io.Reader without Seek/ReadAt) that is read again on a later event; (R19.4) lock discipline and no re-entrant locking in the managers and Config; (R19.5) every read method of a namespace manager answers under its lock; (R19.6) publishing replaces the visible set as a whole (a fresh map), never merges into the live one; (R19.8) in the watchers' event loop every event received reaches a handler call before the loop goes on (no debounce or filter drops a version of a file); (R19.7) for every kind of namespace configuration the value handed to ShouldReload has the dynamic type that the matching manager's ShouldReload compares against, so an unrelated configuration change does not tear down the manager (and with it the last good versions). " +
 			"Not decided: eventual delivery of file events (watcherx, the OS), what is visible between events of different files.",
 		Assumptions: []string{"schema.Parse(\"\") yields no namespaces and no error (read in the parser)"},
 		Run:         runC19,
@@ -37,6 +37,7 @@ func runC19(c *Ctx) {
 	r195(c)
 	r196(c)
 	r197(c)
+	r198(c)
 	_ = p
 }
 
@@ -140,6 +141,67 @@ func r191(c *Ctx) {
 			}
 		}
 	})
+	// and on every path: from the failed branch of parseFiles no return is reachable
+	// without passing a restore/delete of the staged entry
+	if restores {
+		isRestoreBlock := func(b *ssa.BasicBlock) bool {
+			for _, ins := range b.Instrs {
+				switch x := ins.(type) {
+				case *ssa.MapUpdate:
+					return true
+				case *ssa.Call:
+					if bi, ok := x.Call.Value.(*ssa.Builtin); ok && bi.Name() == "delete" {
+						return true
+					}
+				}
+			}
+			return false
+		}
+		for _, b := range hc.Blocks {
+			if len(b.Instrs) == 0 {
+				continue
+			}
+			ifi, ok := b.Instrs[len(b.Instrs)-1].(*ssa.If)
+			if !ok {
+				continue
+			}
+			failIdx := -1
+			if pc, ok := ifi.Cond.(*ssa.Call); ok && core.IsCallTo(pc, "parseFiles") {
+				failIdx = 1
+			}
+			if u, ok := ifi.Cond.(*ssa.UnOp); ok && u.Op == token.NOT {
+				if pc, ok := u.X.(*ssa.Call); ok && core.IsCallTo(pc, "parseFiles") {
+					failIdx = 0
+				}
+			}
+			if failIdx < 0 {
+				continue
+			}
+			seen := map[*ssa.BasicBlock]bool{}
+			var leak func(x *ssa.BasicBlock) bool
+			leak = func(x *ssa.BasicBlock) bool {
+				if seen[x] {
+					return false
+				}
+				seen[x] = true
+				if isRestoreBlock(x) {
+					return false
+				}
+				if len(x.Succs) == 0 {
+					return true
+				}
+				for _, sc := range x.Succs {
+					if leak(sc) {
+						return true
+					}
+				}
+				return false
+			}
+			if leak(b.Succs[failIdx]) {
+				restores = false
+			}
+		}
+	}
 	r.Check(restores, "R19.1", core.FuncName(hc), "keep the last valid content of the changed file", p.Pos(hc.Pos()),
 		"when the re-parse fails, the changed file's previous content is restored (or the new entry removed)",
 		"a file whose new content does not parse stays in the set of files that every later event re-parses: it blocks all later valid changes")
@@ -543,4 +605,104 @@ func r197(c *Ctx) {
 	if n < 3 {
 		r.Undecide("R19.7", "", "namespaceConfig implementations", "", fmt.Sprintf("%d found (floor 3)", n))
 	}
+}
+
+// ---- R19.8 every file event is handled -------------------------------------------------------------
+
+// r198: in the event loop of the namespace watchers every event received from
+// the watcher reaches a handler call (handleChange / handleRemove /
+// handleError, or the logged default of the type switch). An event that is
+// skipped on some condition (debounce, filter) is a version of the file that
+// is never read; nothing re-reads the file later, so the last valid version
+// does not take effect.
+func r198(c *Ctx) {
+	p, r := c.P, c.R
+	fn := p.Func("internal/driver/config.startEventHandler")
+	if fn == nil {
+		r.Undecide("R19.8", "", "anchor startEventHandler", "", "not found")
+		return
+	}
+	// the receive of an event: a Select with a state whose channel is the EventChannel parameter
+	var sel *ssa.Select
+	evIdx := -1
+	core.Instrs(fn, func(_ *ssa.BasicBlock, _ int, ins ssa.Instruction) {
+		if s, ok := ins.(*ssa.Select); ok {
+			for i, st := range s.States {
+				if n := core.NamedOf(st.Chan.Type()); n != nil && n.Obj().Name() == "EventChannel" {
+					sel, evIdx = s, i
+				}
+			}
+		}
+	})
+	if sel == nil {
+		r.Undecide("R19.8", core.FuncName(fn), "event receive", p.Pos(fn.Pos()), "no select on the watcher's event channel found")
+		return
+	}
+	// the block entered when the event arm fires: the true successor of `index == evIdx`
+	var start *ssa.BasicBlock
+	core.Instrs(fn, func(b *ssa.BasicBlock, _ int, ins ssa.Instruction) {
+		ifi, ok := ins.(*ssa.If)
+		if !ok {
+			return
+		}
+		op, x, y, ok := core.BinCmp(ifi.Cond)
+		if !ok || op != token.EQL {
+			return
+		}
+		if ex, ok := x.(*ssa.Extract); ok && ex.Tuple == ssa.Value(sel) && ex.Index == 0 {
+			if k, ok := core.IntConst(y); ok && int(k) == evIdx {
+				start = b.Succs[0]
+			}
+		}
+	})
+	if start == nil {
+		r.Undecide("R19.8", core.FuncName(fn), "event receive", p.Pos(sel.Pos()), "cannot find the branch taken when an event arrives")
+		return
+	}
+	handled := func(b *ssa.BasicBlock) bool {
+		for _, ins := range b.Instrs {
+			if ci, ok := ins.(ssa.CallInstruction); ok {
+				name := ""
+				if ci.Common().IsInvoke() {
+					name = ci.Common().Method.Name()
+				} else if obj := core.CalleeObj(ci.Common()); obj != nil {
+					name = obj.Name()
+				}
+				if strings.HasPrefix(name, "handle") || name == "Warnf" {
+					return true
+				}
+			}
+		}
+		return false
+	}
+	selBlock := sel.Block()
+	seen := map[*ssa.BasicBlock]bool{}
+	var bad *ssa.BasicBlock
+	var walk func(b *ssa.BasicBlock)
+	walk = func(b *ssa.BasicBlock) {
+		if seen[b] || bad != nil {
+			return
+		}
+		seen[b] = true
+		if handled(b) {
+			return
+		}
+		for _, sc := range b.Succs {
+			if sc == selBlock || (len(sc.Instrs) > 0 && sc.Dominates(selBlock) && sc != b) {
+				// back to the top of the loop without a handler call: allowed only when the channel was closed (returns) --
+				// a jump back means the event was dropped
+				bad = b
+				return
+			}
+			walk(sc)
+		}
+	}
+	walk(start)
+	pos := p.Pos(sel.Pos())
+	if bad != nil {
+		pos = p.Pos(lastPos(bad))
+	}
+	r.Check(bad == nil, "R19.8", core.FuncName(fn), "every event reaches a handler", pos,
+		"from the receipt of an event every path calls handleChange/handleRemove/handleError (or logs the unknown type) before the loop goes on",
+		"an event can be skipped: the loop goes back to waiting without calling a handler, so that version of the file is never read and nothing re-reads it later")
 }
